@@ -78,6 +78,9 @@ def load_case(case: Dict[str, Any], **kw):
         ta = htaio.load(files, **kw)
     finally:
         pass
+    ta.t._verif_file_names = {int(r): {i: (str(e.get("name", "")), str(e.get("cat"))) for i, e in enumerate(ev)
+                                       if isinstance(e, dict) and "dur" in e and e.get("cat") is not None}
+                              for r, ev in case["ranks"].items()}
     disturb(ta, case.get("pre"))
     return ta, files
 
